@@ -361,3 +361,16 @@ def c19g(db, res):
     together = len(wp) == 1 and len(wf) == 1 and wp[0][0] == wf[0][0] and P.K(wp[0][2]['r']) == g.params[1]['name'] and P.K(wf[0][2]['r']) == g.params[2]['name']
     res.check(okd and together, 'C19.g', 'htp_tx_set_config:ownership', 'the old configuration is destroyed only when private; pointer and ownership flag are stored together from the arguments',
               'htp_tx_set_config %s' % ('destroys the configuration it replaces without knowing that it is private (a shared configuration is freed under the other parsers)' if not okd else 'does not store the configuration pointer and its ownership flag together from its arguments'), g.loc)
+
+    # ... and wherever a transaction destroys its configuration it is because the ownership flag says PRIVATE (not inferred from pointers)
+    n = 0
+    for name, f in sorted(db.fn.items()):
+        for b, i, c in f.calls('htp_config_destroy'):
+            a = strip(c['args'][0])
+            if a.get('k') != 'member' or a.get('field') != 'cfg' or a.get('rec') != 'htp_tx_t':
+                continue
+            n += 1
+            ok = any(x[0].endswith('is_config_shared') and x[1] == '==' and x[2] == 'HTP_CONFIG_PRIVATE' for x, e in P.facts_at(f, b))
+            res.check(ok, 'C19.g', '%s:destroys-tx-cfg:only-when-private' % name, 'under is_config_shared == HTP_CONFIG_PRIVATE',
+                      '%s destroys the transaction\'s configuration without the ownership flag saying PRIVATE: a configuration installed as SHARED (one per virtual host, used by many connections) is freed with the first transaction that used it' % name, c['loc'])
+    res.floor('C19.g', 'destructions of a transaction configuration', n, 2)
